@@ -1490,6 +1490,27 @@ impl<'a> World<'a> {
         if !ok {
             problems.push(("closing-message-refused-by-merchant", "check_close_signature returned Failed".to_string()));
         }
+        // independent close check: the signature must satisfy the reference relation on the
+        // message the ideal ledger assigns to this stage (not merely on whatever the library's own
+        // encoding of the carried close state is)
+        {
+            let s1 = refc::g1(t.get("close_signature.sigma1"));
+            let s2 = refc::g1(t.get("close_signature.sigma2"));
+            let idb = c.cid.map(|x| x.to_bytes()).unwrap_or([0u8; 32]);
+            let msg = [
+                refc::sc_raw(&idb),
+                refc::close_tag(),
+                refc::sc(&lock),
+                refc::int_scalar(ec),
+                refc::int_scalar(em),
+            ];
+            if !refc::ps_verify(&m.pk, &msg, &s1, &s2) {
+                problems.push((
+                    "closing-signature-not-on-ledger-state",
+                    "the closing signature does not satisfy the signature relation on (channel id, CLOSE, lock, ledger balances)".to_string(),
+                ));
+            }
+        }
         for (class, d) in problems {
             self.o.violate(class, &site, format!("channel {}: {}", ci, d));
         }
